@@ -38,7 +38,9 @@ RULE_ADDED = (
               'egins or ends with a zero byte; scratch files on another file system than the te'
               'mp directory in half the shards. '
               ' '
-              'Round 11: devices report non-zero timestamps; the printed Timestamp is compared. ')
+              'Round 11: devices report non-zero timestamps; the printed Timestamp is compared. '
+              ' '
+              'Round 12: device certificate headers beginning with 0x02 / 0x04 / 0x00. ')
 RULE = RULE + " " + RULE_ADDED.strip()
 ASSUMPTIONS = [
     "the genuine-device models in pv/simdev/genuine.py (endorsement scheme two: signatures by "
